@@ -88,7 +88,10 @@ RULE = (
     "exist); an ECA pair when both are non-empty and at least one rate is defined for some setting; a "
     "matrix when it has a pair with a defined value; a threshold case when the column is not "
     "constant; an ESCN case when some similarity entry is defined. Keyed by the input (sequences, "
-    "timestamps); evaluations counts every contract clause evaluated under every setting.")
+    "timestamps); evaluations counts every contract clause evaluated under every setting. A dtype "
+    "threshold case is keyed by (dtype, data, arguments) and counts when a column is not constant; a "
+    "rescaling case (pair or matrix with its timestamp vectors, window and lag) counts once for all "
+    "scales when some ES value or ECA rate is defined.")
 
 ES_CFGS = [(None, F(0)), (F(1), F(0)), (F(2), F(0)), (None, F(1)), (F(3, 2), F(1, 2)),
            (None, F(-1)), (F(0), F(0))]
